@@ -1165,6 +1165,7 @@ int main(int argc, char **argv) {
         }
         for (int r = 1; r <= 3; r++) for (int v = 0; v < 4; v++) { FCase c; c.reactor = r; c.variant = v; c.rounds = (int)vr::envl("C17_FDOPS_ROUNDS", 200); good = vr::run_direct(v == 1 ? "fdops-queued" : "fdops-rearm", c, p_fdops) && good; }
         VR.finish();
+        if (!g_running_path.empty()) ::unlink(g_running_path.c_str());
         return good ? 0 : 1;
     }
     int rc = vr::rc_main(argc, argv, props);
